@@ -5,9 +5,13 @@ design     MC_RandWalk (exact rational identities on every connected hypergraph 
 code->spec random walk: oracle mode (Oracle_C18: TLC emits K and Pi as exact rationals and decides the
            discrete clauses about sampled walks); contagion: trace validation (Trace_C18: the returned
            vector and, with the hook, every sweep as ONE Sweep step from the previous infected set)
+
+Every executed case is described by a small JSON `spec` (hypergraph, labels, arguments, seeds) from
+which it can be re-executed exactly: that is the replay payload.
 """
 import concurrent.futures as cf
 import itertools
+import json
 import random
 from fractions import Fraction
 
@@ -47,7 +51,7 @@ def explore_jobs(tier):
     def ct(n, zmin, zmax, T, keep):
         return ("MC_Contagion", {"Kind": "hg", "Node": set(range(1, n + 1)), "ZMin": zmin, "ZMax": zmax, "T": T, "KeepOut": keep}, CT_INV)
     if tier == "quick":
-        return [rw(4, 2, 4, 11), ct(3, 2, 3, 4, True)]
+        return [rw(4, 2, 4, 11), ct(3, 2, 3, 4, True), ct(4, 2, 3, 2, False)]
     return [rw(4, 2, 4, 11), rw(3, 2, 3, 4), rw(5, 2, 5, 3),
             ct(3, 1, 3, 4, True), ct(4, 2, 3, 4, False)]
 
@@ -80,9 +84,8 @@ def random_connected(rng, n, zmax):
         for _ in range(rng.randint(1, n + 2)):
             z = rng.randint(2, min(zmax, n))
             edges.add(tuple(sorted(rng.sample(range(1, n + 1), z))))
-        # stitch the components with a few more hyperedges
         tries = 0
-        while not is_connected(n, edges) and tries < 20:
+        while not is_connected(n, edges) and tries < 20:      # stitch the components
             z = rng.randint(2, min(zmax, n))
             edges.add(tuple(sorted(rng.sample(range(1, n + 1), z))))
             tries += 1
@@ -92,7 +95,7 @@ def random_connected(rng, n, zmax):
 
 def build(b, edges, rng, extra_nodes=()):
     obj = b.new(False)
-    edges = list(edges)
+    edges = [tuple(e) for e in edges]
     rng.shuffle(edges)
     with quiet():
         for n in extra_nodes:
@@ -103,11 +106,16 @@ def build(b, edges, rng, extra_nodes=()):
 
 
 # ---------------------------------------------------------------------------
-# random walk part
-def rw_observe(b, obj, n, rng, nseed, tier):
-    """call the four functions of dynamics/randwalk.py; floats stay on this side"""
+# random walk part.  spec = {part, n, edges, case_seed, np_seed, ndens, nwalks}
+def rw_execute(spec):
+    """build the hypergraph (labels 0..n-1) and call the four functions of dynamics/randwalk.py;
+    returns (case for TLC, log); floats stay on this side"""
     import hypergraphx.dynamics.randwalk as RW
-    log = {"np_seed": nseed}
+    n, nseed = spec["n"], spec["np_seed"]
+    rng = random.Random(spec["case_seed"])
+    b = Binding("hg", LABEL_FAMILIES["zero"](n), rng)
+    obj = build(b, spec["edges"], rng)
+    log = {}
     with quiet():
         try:
             K = RW.transition_matrix(obj)
@@ -123,7 +131,7 @@ def rw_observe(b, obj, n, rng, nseed, tier):
         starts = [np.eye(n)[rng.randrange(n)], np.full(n, 1.0 / n)]
         w = np.array([rng.random() + 0.01 for _ in range(n)])
         starts.append(w / w.sum())
-        for s0 in starts[:(2 if tier == "quick" else 3)]:
+        for s0 in starts[:spec["ndens"]]:
             time = rng.choice([0, 1, 2, 3, 5, 8])
             try:
                 lst = RW.random_walk_density(obj, np.array(s0), time)
@@ -133,7 +141,7 @@ def rw_observe(b, obj, n, rng, nseed, tier):
                 dens.append({"s0": [float(x) for x in s0], "time": time, "error": "%s: %s" % (type(ex).__name__, ex)})
         log["dens"] = dens
         walks = []
-        for k in range(3 if tier == "quick" else 5):
+        for k in range(spec["nwalks"]):
             s = rng.randrange(n)
             time = rng.choice([0, 1, 2, 6, 12, 25])
             np.random.seed(nseed + k)
@@ -143,7 +151,8 @@ def rw_observe(b, obj, n, rng, nseed, tier):
             except Exception as ex:
                 walks.append({"s": s + 1, "time": time, "error": "%s: %s" % (type(ex).__name__, ex), "np_seed": nseed + k})
         log["walks"] = walks
-    return log
+    case = {"st": b.state(obj), "walks": [w_ for w_ in walks if "nodes" in w_]}
+    return case, log
 
 
 def rw_judge(log, val, n):
@@ -152,7 +161,6 @@ def rw_judge(log, val, n):
     Kq = [[Fraction(x[0], x[1]) for x in row] for row in val["K"]]
     Ks = np.array([[float(x) for x in row] for row in Kq])
     Pis = np.array([float(Fraction(x[0], x[1])) for x in val["Pi"]])
-    # transition_matrix
     if "K" not in log:
         bad["transition_matrix_returned"] = log.get("K_error")
     else:
@@ -163,10 +171,9 @@ def rw_judge(log, val, n):
             d = np.abs(K - Ks)
             if not np.all(np.isfinite(K)) or d.max() > TOL:
                 i, j = np.unravel_index(np.nanargmax(np.where(np.isfinite(d), d, np.inf)), d.shape)
-                bad["transition_matrix_entries"] = "K[%d,%d]=%r, specification %s" % (i, j, K[i, j], Kq[i][j])
+                bad["transition_matrix_entries"] = "K[%d,%d]=%r, specification %s" % (i, j, float(K[i, j]), Kq[i][j])
             if not np.all(np.isfinite(K)) or np.abs(K.sum(axis=1) - 1).max() > TOL or K.min() < 0:
                 bad["transition_matrix_row_stochastic"] = "row sums %s" % K.sum(axis=1).tolist()
-    # stationary state
     if "Pi" not in log:
         bad["stationary_state_returned"] = log.get("Pi_error")
     else:
@@ -175,34 +182,69 @@ def rw_judge(log, val, n):
             bad["stationary_is_probability_vector"] = "%s" % pi.tolist()
         else:
             if abs(pi.sum() - 1) > 1e-8 or pi.min() < -1e-12:
-                bad["stationary_is_probability_vector"] = "sum %r min %r" % (pi.sum(), pi.min())
+                bad["stationary_is_probability_vector"] = "sum %r min %r" % (float(pi.sum()), float(pi.min()))
             if np.abs(pi @ Ks - pi).max() > 1e-8:
                 bad["stationary_fixed_by_transition_matrix"] = "max |pi K - pi| = %.3g (pi=%s)" % (np.abs(pi @ Ks - pi).max(), pi.tolist())
             if np.abs(pi - Pis).max() > 1e-8:
-                bad["stationary_proportional_to_squared_sizes"] = "returned %s, specification %s" % (pi.tolist(), [str(Fraction(x[0], x[1])) for x in val["Pi"]])
-    # densities
+                bad["stationary_proportional_to_squared_sizes"] = "returned %s, specification %s" % (
+                    pi.tolist(), [str(Fraction(x[0], x[1])) for x in val["Pi"]])
     for d in log["dens"]:
         if "error" in d:
             bad["density_returned"] = d["error"]
             continue
         lst = [np.array(x) for x in d["list"]]
         if len(lst) != d["time"] + 1 or any(x.shape != (n,) for x in lst):
-            bad["density_one_per_time"] = "%d densities for time=%d" % (len(lst), d["time"])
+            bad["model_density_one_per_time"] = "%d densities for time=%d" % (len(lst), d["time"])
             continue
         if np.abs(lst[0] - np.array(d["s0"])).max() > TOL:
-            bad["density_starts_at_given"] = "first density %s" % lst[0].tolist()
+            bad["model_density_starts_at_given"] = "first density %s" % lst[0].tolist()
         for t_ in range(1, len(lst)):
             if not np.all(np.isfinite(lst[t_])) or np.abs(lst[t_] - lst[t_ - 1] @ Ks).max() > TOL:
                 bad["density_step_is_previous_times_K"] = "step %d: %s, expected %s" % (t_, lst[t_].tolist(), (lst[t_ - 1] @ Ks).tolist())
                 break
         for t_ in range(len(lst)):
             if not abs(lst[t_].sum() - 1) <= TOL:
-                bad["density_sums_to_one"] = "step %d sums to %r" % (t_, lst[t_].sum())
+                bad["density_sums_to_one"] = "step %d sums to %r" % (t_, float(lst[t_].sum()))
                 break
     for w in log["walks"]:
         if "error" in w:
             bad["walk_returned"] = w["error"]
     return bad
+
+
+def rw_validate(res, specs, procs=8):
+    """execute, send to TLC, judge; returns (number rejected, cases, logs, values, validator states)"""
+    cases, logs = [], []
+    for sp in specs:
+        c, log = rw_execute(sp)
+        cases.append(c)
+        logs.append(log)
+    v = O.run_oracle("Oracle_C18", cases, {"Kind": "hg"}, procs=procs)
+    tl = dict(v["rejects"])
+    nrej = 0
+    for i, (sp, log, val) in enumerate(zip(specs, logs, v["values"])):
+        failed = list(tl.get(i, []))
+        if not val.get("ok") or any(f.startswith("spec_") or f == "input_in_scope" for f in failed):
+            raise tlc.TLCError("C18 random walk: the harness produced an input outside the statement's scope or the "
+                               "specification contradicts itself on %s: %s" % (sp, failed))
+        detail = rw_judge(log, val, sp["n"])
+        failed += sorted(detail)
+        e0 = [[x - 1 for x in e] for e in sp["edges"]]
+        prop = [f for f in failed if not f.startswith("model_")]
+        if failed and not prop:
+            res.model_drift("random walk on %s: only model-detail clauses fail (%s)" % (e0, ",".join(failed)))
+        if not prop:
+            continue
+        nrej += 1
+        fn = sorted({"RW_stationary_state" if f.startswith("stationary") else
+                     "transition_matrix" if f.startswith("transition") else
+                     "random_walk_density" if f.startswith("density") else "random_walk" for f in prop})
+        res.reject({"part": "randwalk", "function": fn if len(fn) > 1 else fn[0], "clauses": sorted(prop)},
+                   "random walk on the connected hypergraph %s (nodes 0..%d): %s" % (
+                       e0, sp["n"] - 1, "; ".join("%s [%s]" % (f, detail.get(f, "decided by TLC")) for f in sorted(prop))),
+                   {"spec": sp, "hyperedges_0_based": e0, "failed": failed, "detail": detail,
+                    "logged": {k: log[k] for k in ("K", "Pi", "Pi_error", "K_error", "walks") if k in log}})
+    return nrej, cases, logs, v
 
 
 def randwalk_part(res, tier, seed):
@@ -221,58 +263,32 @@ def randwalk_part(res, tier, seed):
         if is_connected(4, es):
             conn4.append(es)
     exhaustive4 = tier != "quick"
-    for es in (conn4 if exhaustive4 else rng.sample(conn4, 150)):
+    for es in (conn4 if exhaustive4 else rng.sample(conn4, 400)):
         todo.append((4, es))
     # single hyperedges of every size, stars, chains: the shapes on which the historic solver was singular
     for z in (2, 3, 4, 5):
         todo.append((z, [tuple(range(1, z + 1))]))
     todo.append((5, [(1, 2), (2, 3), (3, 4), (4, 5)]))
     todo.append((5, [(1, 2), (1, 3), (1, 4), (1, 5)]))
-    for _ in range(200 if tier == "quick" else 1500):
+    for _ in range(400 if tier == "quick" else 3000):
         n = rng.choice([5, 6, 7, 8])
         todo.append((n, random_connected(rng, n, 5)))
-    cases, logs, descr = [], [], []
-    for i, (n, es) in enumerate(todo):
-        b = Binding("hg", LABEL_FAMILIES["zero"](n), rng)
-        obj = build(b, es, rng)
-        nseed = (seed * 7919 + i * 13) % (2 ** 31)
-        log = rw_observe(b, obj, n, rng, nseed, tier)
-        logs.append(log)
-        descr.append({"n": n, "hyperedges_0_based": [[x - 1 for x in e] for e in es], "np_seed": nseed})
-        cases.append({"st": b.state(obj), "walks": [w for w in log["walks"] if "nodes" in w]})
-    v = O.run_oracle("Oracle_C18", cases, {"Kind": "hg"}, procs=8)
-    tl = dict(v["rejects"])
-    nrej = 0
-    for i, (log, val) in enumerate(zip(logs, v["values"])):
-        failed = list(tl.get(i, []))
-        if not val.get("ok") or any(f.startswith("spec_") or f == "input_in_scope" for f in failed):
-            raise tlc.TLCError("C18 random walk: the harness produced an input outside the statement's scope or the "
-                               "specification contradicts itself on %s: %s" % (descr[i], failed))
-        detail = rw_judge(log, val, descr[i]["n"])
-        failed += sorted(detail)
-        if not failed:
-            continue
-        nrej += 1
-        fn = sorted({"RW_stationary_state" if f.startswith("stationary") else
-                     "transition_matrix" if f.startswith("transition") else
-                     "random_walk_density" if f.startswith("density") else "random_walk" for f in failed})
-        res.reject({"part": "randwalk", "function": fn if len(fn) > 1 else fn[0], "clauses": sorted(failed)},
-                   "random walk on the connected hypergraph %s (nodes 0..%d): %s" % (
-                       descr[i]["hyperedges_0_based"], descr[i]["n"] - 1,
-                       "; ".join("%s [%s]" % (f, detail.get(f, "decided by TLC")) for f in sorted(failed))),
-                   {"case": descr[i], "failed": failed, "detail": detail,
-                    "logged": {k: log[k] for k in ("K", "Pi", "Pi_error", "K_error", "walks") if k in log}})
+    specs = [{"part": "randwalk", "n": n, "edges": [list(e) for e in es],
+              "case_seed": seed * 1000003 + i, "np_seed": (seed * 7919 + i * 13) % (2 ** 31),
+              "ndens": 2 if tier == "quick" else 3, "nwalks": 3 if tier == "quick" else 5}
+             for i, (n, es) in enumerate(todo)]
+    nrej, cases, logs, v = rw_validate(res, specs)
     res.cov(randwalk_hypergraphs=len(cases), randwalk_rejected=nrej,
             walks_validated=sum(len(c["walks"]) for c in cases),
             density_steps_validated=sum(max(0, len(d.get("list", [])) - 1) for l in logs for d in l["dens"]),
             connected_4_node_hypergraphs_exhaustive=exhaustive4,
             traces_validated_against_impl=len(cases), validator_states=v["states"])
-    res.sample({"part": "randwalk", "case": descr[-1], "K_spec_row0": v["values"][-1]["K"][0], "Pi_spec": v["values"][-1]["Pi"],
+    res.sample({"part": "randwalk", "spec": specs[-1], "K_spec_row0": v["values"][-1]["K"][0], "Pi_spec": v["values"][-1]["Pi"],
                 "Pi_returned": logs[-1].get("Pi", logs[-1].get("Pi_error")), "walk": logs[-1]["walks"][0]})
 
 
 # ---------------------------------------------------------------------------
-# contagion part
+# contagion part.  spec = {part, n, edges, family, I0, T, rates, np_seed, case_seed}
 def level(x):
     return "0" if x == 0 else ("1" if x >= 1 else "mid")
 
@@ -289,19 +305,24 @@ def drain():
     return ev
 
 
-def contagion_run(b, obj, n, I0, T, rates, nseed):
-    """one call -> (trace, error)"""
+def ct_execute(spec):
+    """one call of simplicial_contagion -> (trace, labels, error)"""
     from hypergraphx.dynamics.contagion import simplicial_contagion
+    n, T, rates = spec["n"], spec["T"], spec["rates"]
+    rng = random.Random(spec["case_seed"])
+    b = Binding("hg", LABEL_FAMILIES[spec["family"]](n), rng)
+    obj = build(b, spec["edges"], rng, extra_nodes=range(1, n + 1))
+    I0 = set(spec["I0"])
     I_0 = {b.lab(x): (1 if x in I0 else 0) for x in range(1, n + 1)}
     drain()
-    np.random.seed(nseed)
+    np.random.seed(spec["np_seed"])
     try:
         with quiet():
             out = simplicial_contagion(obj, I_0, T, rates[0], rates[1], rates[2])
         out = [float(x) for x in np.asarray(out, dtype=float).ravel()]
     except Exception as ex:
         drain()
-        return None, "%s: %s" % (type(ex).__name__, ex)
+        return None, b.labels, "%s: %s" % (type(ex).__name__, ex)
     hooked = drain()
     counts = [int(round(x * n)) if np.isfinite(x) else -1 for x in out]
     integral = all(np.isfinite(x) and abs(x * n - round(x * n)) < 1e-9 for x in out)
@@ -312,14 +333,55 @@ def contagion_run(b, obj, n, I0, T, rates, nseed):
     for e in hooked or []:
         if e.get("kind") == "contagion_sweep":
             trace.append({"kind": "sweep", "t": int(e["t"]), "I": sorted(b.unlab(x) for x in e["infected"])})
-    return trace, None
+    return trace, b.labels, None
+
+
+def ct_validate(res, specs, procs=8):
+    traces, descr = [], []
+    for sp in specs:
+        tr, labels, err = ct_execute(sp)
+        d = dict(sp, labels=labels)
+        if tr is None:
+            res.reject({"part": "contagion", "clauses": ["call_returns"]},
+                       "simplicial_contagion raised %s on %s" % (err, d), {"spec": sp})
+            continue
+        traces.append(tr)
+        descr.append(d)
+    v = O.run_traces("Trace_C18", traces, {"Kind": "hg"}, procs=procs)
+    first, drift = {}, {}
+    for (ti, li, failed) in v["rejects"]:
+        if "input_in_scope" in failed:
+            raise tlc.TLCError("C18 contagion: the harness produced an input outside the statement's scope: %s" % descr[ti])
+        prop = [f for f in failed if not f.startswith("model_")]
+        if prop:
+            first.setdefault(ti, (li, prop, failed))
+        else:
+            drift.setdefault(ti, (li, failed))
+    for ti, (li, prop, failed) in first.items():
+        d, ev = descr[ti], traces[ti][li]
+        regime = "deterministic" if all(x in ("0", "1") for x in traces[ti][0]["r"].values()) else "stochastic"
+        show = {k: d[k] for k in ("n", "edges", "labels", "I0", "T", "rates", "np_seed")}
+        res.reject({"part": "contagion", "clauses": sorted(prop), "regime": regime, "event": ev["kind"]},
+                   "simplicial_contagion: %s fail(s) at %s of the run %s (rates = beta, beta_D, mu); returned counts %s" % (
+                       ",".join(sorted(prop)),
+                       "the returned vector" if li == 0 else "sweep event %d (infected %s)" % (li, ev.get("I")),
+                       show, traces[ti][0]["out"]),
+                   {"spec": {k: x for k, x in d.items() if k != "labels"}, "labels": d["labels"], "failed": failed,
+                    "event_index": li, "event": {k: x for k, x in ev.items() if k != "st"},
+                    "returned_counts": traces[ti][0]["out"], "sweeps": traces[ti][1:]})
+    only_drift = [ti for ti in drift if ti not in first]
+    for ti in only_drift:
+        li, failed = drift[ti]
+        res.model_drift("contagion %s: only model-detail clauses fail (%s) at event %d" % (
+            {k: descr[ti][k] for k in ("n", "edges", "labels", "I0", "T", "rates", "np_seed")}, ",".join(failed), li))
+    return traces, descr, v, first, only_drift
 
 
 def contagion_part(res, tier, seed):
     rng = random.Random(seed * 2003 + 18)
     fams = ("ident", "sparse", "str", "zero")
     det_vals = {"0": [0, 0.0], "1": [1, 1.0]}
-    plans = []   # (n, edges, extra_nodes, I0, T, rates)
+    plans = []   # (n, edges, I0, T, rates)
     # (i) every hypergraph on 3 nodes (sizes 2..3) x every initial set x the eight deterministic regimes
     e3 = all_edges(3, 2, 3)
     for mask in range(1 << len(e3)):
@@ -327,9 +389,9 @@ def contagion_part(res, tier, seed):
         for imask in range(8):
             I0 = {x for x in (1, 2, 3) if imask >> (x - 1) & 1}
             for reg in itertools.product("01", repeat=3):
-                plans.append((3, es, (1, 2, 3), I0, 4, tuple(rng.choice(det_vals[c]) for c in reg)))
+                plans.append((3, es, I0, 4, tuple(rng.choice(det_vals[c]) for c in reg)))
     # (ii) larger hypergraphs, deterministic regimes and random rates
-    nrand = 900 if tier == "quick" else 7000
+    nrand = 2500 if tier == "quick" else 14000
     for i in range(nrand):
         n = rng.choice([2, 3, 4, 4, 5, 5, 6, 6, 7, 7])
         es = set()
@@ -350,52 +412,32 @@ def contagion_part(res, tier, seed):
             if all(x in (0, 1) for x in rates):
                 rates[rng.randrange(3)] = round(rng.uniform(0.05, 0.95), 3)
             rates = tuple(rates)
-        plans.append((n, es, tuple(range(1, n + 1)), I0, T, rates))
-    traces, descr, hooked_runs = [], [], 0
-    for i, (n, es, extra, I0, T, rates) in enumerate(plans):
-        b = Binding("hg", LABEL_FAMILIES[fams[i % 4]](n), rng)
-        obj = build(b, es, rng, extra_nodes=extra)
-        nseed = (seed * 104729 + i * 31) % (2 ** 31)
-        d = {"n": n, "hyperedges": [list(e) for e in es], "labels": b.labels, "I0": sorted(I0), "T": T,
-             "rates(beta,beta_D,mu)": list(rates), "np_seed": nseed}
-        tr, err = contagion_run(b, obj, n, I0, T, rates, nseed)
-        if tr is None:
-            res.reject({"part": "contagion", "clauses": ["call_returns"]},
-                       "simplicial_contagion raised %s on %s" % (err, d), {"case": d})
-            continue
-        if len(tr) > 1:
-            hooked_runs += 1
-        traces.append(tr)
-        descr.append(d)
-    v = O.run_traces("Trace_C18", traces, {"Kind": "hg"}, procs=8)
-    first, drift = {}, {}
-    for (ti, li, failed) in v["rejects"]:
-        prop = [f for f in failed if not f.startswith("model_")]
-        if prop:
-            first.setdefault(ti, (li, prop, failed))
-        else:
-            drift.setdefault(ti, (li, failed))
-    for ti, (li, prop, failed) in first.items():
-        d, ev = descr[ti], traces[ti][li]
-        regime = "deterministic" if all(x in ("0", "1") for x in traces[ti][0]["r"].values()) else "stochastic"
-        res.reject({"part": "contagion", "clauses": sorted(prop), "regime": regime, "event": ev["kind"]},
-                   "simplicial_contagion: %s fail(s) at %s of the run %s; returned counts %s" % (
-                       ",".join(sorted(prop)), "the returned vector" if li == 0 else "sweep event %d (infected %s)" % (li, ev.get("I")),
-                       d, traces[ti][0]["out"]),
-                   {"case": d, "failed": failed, "event_index": li, "event": {k: x for k, x in ev.items() if k != "st"},
-                    "returned_counts": traces[ti][0]["out"], "sweeps": traces[ti][1:]})
-    for ti, (li, failed) in drift.items():
-        if ti not in first:
-            res.model_drift("contagion %s: only model-detail clauses fail (%s) at event %d" % (descr[ti], ",".join(failed), li))
+        plans.append((n, es, I0, T, rates))
+    specs = [{"part": "contagion", "n": n, "edges": [list(e) for e in es], "family": fams[i % 4], "I0": sorted(I0), "T": T,
+              "rates": list(rates), "np_seed": (seed * 104729 + i * 31) % (2 ** 31), "case_seed": seed * 1000033 + i}
+             for i, (n, es, I0, T, rates) in enumerate(plans)]
+    traces, descr, v, first, only_drift = ct_validate(res, specs)
     det = sum(1 for t_ in traces if all(x in ("0", "1") for x in t_[0]["r"].values()))
+    hooked_runs = sum(1 for t_ in traces if len(t_) > 1)
     res.cov(contagion_runs=len(traces), contagion_deterministic_regime_runs=det, contagion_stochastic_runs=len(traces) - det,
             contagion_runs_with_hook_events=hooked_runs, contagion_sweep_events=sum(len(t_) - 1 for t_ in traces),
-            events=v["events"], contagion_rejected_runs=len(first), contagion_model_drift_runs=len([1 for t_ in drift if t_ not in first]),
+            events=v["events"], contagion_rejected_runs=len(first), contagion_model_drift_runs=len(only_drift),
             hook_active=hooked_runs > 0)
     res.cov(traces_validated_against_impl=len(traces), validator_states=v["states"])
     if traces:
         k = max(range(len(traces)), key=lambda x: len(traces[x]))
-        res.sample({"part": "contagion", "case": descr[k], "returned_counts": traces[k][0]["out"], "sweeps": traces[k][1:]})
+        res.sample({"part": "contagion", "spec": descr[k], "returned_counts": traces[k][0]["out"], "sweeps": traces[k][1:]})
+
+
+ASSUMPTIONS = (
+    "K and Pi are emitted by TLC as exact rationals (Oracle_C18); the comparison with the returned floats "
+    "(tolerance 1e-9; 1e-8 for the solved stationary vector) and the product s_t K with the SPECIFICATION's K are done in numpy",
+    "random_walk / simplicial_contagion draw from numpy's global generator: it is seeded before every call (seed in the replay)",
+    "rates are abstracted to 0 / mid / 1; at intermediate rates only bounds and monotonicity are verdict-bearing, the "
+    "may-relation of a sweep, the hook bookkeeping, the length of the returned vector / walk / density list and their first entries "
+    "are model detail (MODEL-DRIFT)",
+    "without hook events (HGX_VERIF off or hook not installed) only the returned vector is judged",
+    "hypergraphs for the random walk are unweighted, connected, labelled 0..N-1, sizes 2..5; horizon T >= 1 for the contagion")
 
 
 def run(tier, seed):
@@ -408,12 +450,23 @@ def run(tier, seed):
     res.cov(states=sum(r["states"] for r in runs), transitions=sum(r["transitions"] for r in runs))
     res.coverage["explorations"] = runs
     res.coverage["invariants"] = RW_INV + CT_INV + ["step:" + s for s in CT_STEP]
-    res.assume(
-        "K and Pi are emitted by TLC as exact rationals (Oracle_C18); the comparison with the returned floats "
-        "(tolerance 1e-9; 1e-8 for the solved stationary vector) and the product s_t K with the SPECIFICATION's K are done in numpy",
-        "random_walk / simplicial_contagion draw from numpy's global generator: it is seeded before every call (seed in the replay)",
-        "rates are abstracted to 0 / mid / 1; at intermediate rates only bounds and monotonicity are verdict-bearing, the "
-        "may-relation of a sweep and the hook bookkeeping are model detail (MODEL-DRIFT)",
-        "without hook events (HGX_VERIF off or hook not installed) only the returned vector is judged",
-        "hypergraphs for the random walk are unweighted, connected, labelled 0..N-1, sizes 2..5; horizon T >= 1 for the contagion")
+    res.assume(*ASSUMPTIONS)
     return res.finish()
+
+
+def replay(path):
+    """re-execute the one case of a replay file and validate it again (evidence is not rewritten)"""
+    with open(path) as f:
+        rp = json.load(f)
+    sp = rp["payload"]["spec"]
+    res = Result("C18", "replay", rp.get("seed", 0), "model_checking")
+    if sp["part"] == "randwalk":
+        rw_validate(res, [sp], procs=1)
+    else:
+        ct_validate(res, [sp], procs=1)
+    for r in res.rejections:
+        print("VIOLATION property=C18 replay=%s\n  what: %s" % (path, r["what"]))
+    for d in res.drift:
+        print("MODEL-DRIFT property=C18 %s" % d)
+    print("C18 replay %s" % ("FAIL" if res.rejections else "PASS"))
+    return 1 if res.rejections else 0
